@@ -28,6 +28,27 @@ def main():
     missing = [t for t in base["stable_pass"] if t not in passed]
     tolerated = [t for t in missing if "test_convert_workers[auto-" in t]
     missing = [t for t in missing if t not in tolerated]
+    if 0 < len(missing) <= 8:
+        # timing-sensitive tests (3 s server start-up limits) fail under machine load: run the few missing ones again, serially
+        import re
+        retried = set()
+        for t in missing:
+            cls, name = t.split("::", 1)
+            parts = cls.split(".")
+            while parts and not os.path.exists(os.path.join(repo, *parts) + ".py"):
+                parts.pop()
+            if not parts:
+                continue
+            out2 = tempfile.mktemp(suffix=".junit.xml", dir="/var/tmp")
+            subprocess.run(["/venv/bin/python", "-m", "pytest", "-q", "-p", "no:cacheprovider", "--timeout=900", f"--junitxml={out2}", os.path.join(*parts) + ".py", "-k", re.split(r"\[", name)[0]],
+                           cwd=repo, env=dict(env, PYTHONPATH=repo + "/src"), stdout=subprocess.DEVNULL, stderr=subprocess.DEVNULL)
+            if os.path.exists(out2):
+                for tc in ET.parse(out2).getroot().iter("testcase"):
+                    if not any(ch.tag in ("failure", "error", "skipped") for ch in tc):
+                        retried.add(f"{tc.get('classname')}::{tc.get('name')}")
+                os.unlink(out2)
+        passed |= retried
+        missing = [t for t in missing if t not in passed]
     print(f"stable_pass={len(base['stable_pass'])} passed_now={len(passed)} missing={len(missing)} tolerated={len(tolerated)}")
     for t in missing[:50]:
         print("MISSING", t)
